@@ -107,9 +107,14 @@ def enumerate_faults(spec: dict, c12: bool) -> list:
                 for p2, fld in b.fields:
                     if p2 == path:
                         cuts.update((fld.off - 1, fld.off, fld.off + fld.width, fld.off + fld.width + 1))
-                for st, en, _ in f._ext[:40]:
-                    cuts.update((st, st + 1, en - 1, en))
-                for c in sorted(x for x in cuts if 0 <= x < f.length)[:60]:
+                ext = f._ext if len(f._ext) <= 60 else f._ext[:20] + f._ext[20:-20:max(1, (len(f._ext) - 40) // 20)] + f._ext[-20:]
+                for st, en, _ in ext:
+                    cuts.update((st, st + 1, en - 1, en, (st + en) // 2))
+                cl = sorted(x for x in cuts if 0 <= x < f.length)
+                if len(cl) > 90:
+                    # the whole file is covered: the structures at the front, an even sample of the middle, the tail
+                    cl = cl[:30] + cl[30:-30:max(1, (len(cl) - 60) // 30)] + cl[-30:]
+                for c in cl:
                     faults.append(["trunc", path[len(w.root):], c])
                 rng = rng_for(spec.get("fmt") or spec.get("name") or spec["type"], path.rsplit("/", 1)[1], "garble")
                 for _ in range(10):
@@ -135,6 +140,8 @@ def _is_gate(fld, how, val, cur) -> bool:
         # SE-sparse parser itself owes the check of the high half
         return how == "xor" and val >= (1 << 32)
     if fld.kind == "magic":
+        if n.startswith("hyperv.keytable") and n.endswith(".signature"):
+            return True
         return n in GATE_MAGICS
     if fld.kind == "version":
         if n == "qcow2.hdr.version":
@@ -169,6 +176,7 @@ def explicit_gates(spec: dict) -> list:
                     g.append(["qcow2_comptype_nobit", v, "unknown compression type, feature bit clear"])
             g.append(["qcow2_extl2_small", 0, "extended L2 with sub-clusters below 512 bytes"])
         g.append(["qcow2_backing_no_arg", 0, "stored backing name but no backing_file argument"])
+        g.append(["qcow2_backing_bad_name", 0, "stored backing name (not decodable) but no backing_file argument"])
     if t == "chain" and spec["ccase"]["kind"] == "hdd":
         for typ in ("Expanding", "compressed", "Raw", ""):
             g.append(["hdd_image_type", typ, "unsupported Parallels image type"])
@@ -669,6 +677,16 @@ def _f_qcow2_backing_no_arg(world, b, spec, _):
     f.write(off, name)
     _set_bytes(f, 8, off.to_bytes(8, "big"))
     _set_bytes(f, 16, len(name).to_bytes(4, "big"))
+
+
+def _f_qcow2_backing_bad_name(world, b, spec, _):
+    """The image names a backing file, the caller supplies none - and the stored name is not valid UTF-8 (overwritten bytes).
+    Needing a backing file does not depend on being able to print its name."""
+    _f_qcow2_backing_no_arg(world, b, spec, 0)
+    b.open_kwargs_drop_backing = True
+    f = world.fs.files[b.paths[0]]
+    off = int.from_bytes(f.pread(8, 8), "big")
+    f.write(off, b"\xff\xfe")
 
 
 def _vhdx_top(world):
